@@ -73,6 +73,16 @@ pub fn c08_specs(quick: bool) -> Vec<EwSpec> {
             scs.push(sc(&format!("C08.{}", sname), &cfg, script, env, d, EO_C08));
         }
     }
+    // applications that keep the event iterator of one step() across their next call of step() and read it afterwards: the stream
+    // of events is the same, one step late
+    {
+        let cfg = EwCfg::new(1);
+        let mut script = echo_script(0);
+        script.extend(vec![after_s(0, 3, Act::SSend(0, 0, SendMode::Reliable, 21)), after_s(0, 3, Act::SSend(0, 0, SendMode::Reliable, 22)), after_s(0, 4, Act::SSend(0, 0, SendMode::Reliable, 23)), after_c(0, 7, Act::CDisconnect(0))]);
+        let mut env = EwEnv::basic(6, 140);
+        env.fates = DF_BASIC; env.deltas = &[100, 2000]; env.fair_delta = 500; env.late_events = true;
+        scs.push(sc("C08.events-read-one-step-late", &cfg, script, env, 2, EO_C08 | EO_ECHO | EO_C07));
+    }
     // two concurrent clients: application choices on client 0, the second one connects, echoes and disconnects meanwhile
     {
         let mut cfg = EwCfg::new(2);
